@@ -135,6 +135,6 @@ def run(rep, ctx, tier):
     rep.count("msm sites", n_sites)
     rep.count("msm wrappers", n_wr)
     rep.count("scalar offsets", n_off)
-    if n_sites < 20 or n_off < 2:
-        rep.add("R12c", "floor", False, "only %d msm sites / %d offsets into coefficient vectors found (counted 33 / 2; fail "
+    if n_sites < 20 or n_off < 1:
+        rep.add("R12c", "floor", False, "only %d msm sites / %d offsets into coefficient vectors found (counted 33 / 2; floors 20 / 1; fail "
                 "closed)" % (n_sites, n_off), None)
